@@ -14,6 +14,20 @@ pub fn run<F>(ctx: &Ctx, n: u64, deadline: Duration, f: F) -> Outcome
 where
     F: Fn(u64, &mut Rng, &mut Outcome) + Sync,
 {
+    // VERIF_ONLY=<i> (set by hand or by --replay): run scenario i alone
+    let only: Option<u64> = std::env::var("VERIF_ONLY").ok().and_then(|s| s.parse().ok());
+    if let Some(i) = only.filter(|i| *i < n) {
+        let mut rng = Rng::for_scenario(ctx.seed, &ctx.prop, i);
+        let mut o = Outcome::default();
+        let r = std::panic::catch_unwind(std::panic::AssertUnwindSafe(|| f(i, &mut rng, &mut o)));
+        if let Err(p) = r {
+            let msg = panic_msg(&p);
+            o.violation(format!("{}|panic|{}", ctx.prop, crate::util::first_words(&msg, 12)), format!("panic in scenario {i}: {msg}"), serde_json::json!({"scenario": i, "seed": ctx.seed, "panic": msg}));
+        }
+        return o;
+    } else if only.is_some() {
+        return Outcome::default();
+    }
     let next = AtomicU64::new(0);
     let total = Mutex::new(Outcome::default());
     let start = Instant::now();
